@@ -389,7 +389,9 @@ func replay(c *vf.Ctx) {
 		}
 	}
 	c.Eval(1)
-	if r.failed {
+	if r.failed && knownSeen > 0 {
+		fmt.Println("REPLAY: the witness still shows the known finding")
+	} else if r.failed {
 		fmt.Println("REPLAY: the witness still violates")
 	} else {
 		fmt.Println("REPLAY: the witness no longer violates")
